@@ -7,7 +7,7 @@ import shapes
 PROFILES = {
     "C03": dict(acquire=5, release=5, access=0.5, forget=0.15, panic=0.3, closure_panic=0.2, block=0.08),
     "C04": dict(acquire=6, release=4, access=0.5, block=0.05),
-    "C05": dict(acquire=5, release=5, access=0.5, forget=0.05, panic=0.2, closure_panic=0.15),
+    "C05": dict(acquire=5, release=5, access=0.5, forget=0.05, panic=0.5, closure_panic=0.35, poison=0.4),
     "C06": dict(key=3, acquire=4, release=3, forget=0.6, panic=0.6, closure_panic=0.3, invalid=0.5, access=0.2),
     "C10": dict(acquire=5, release=3, panic=1.5, closure_panic=0.45, poison=2.0, access=0.3, invalid=0.05),
     "C11": dict(acquire=5, release=2, panic=2.5, closure_panic=0.6, access=0.3, invalid=0.05),
@@ -79,22 +79,22 @@ def coq_expr(pid, s, r):
                 f"wf_histb ({s.coq(*r['adr'])}))")
     if pid == "C10":
         sc_, ob_ = s.coq(*r['adr']), common.obs_list(r)
-        X = f"still_acquires ({sc_}) (pre_holds ({sc_})) (sc_hist ({sc_})) {ob_} && mon_C10u ({sc_}) {ob_}"
-        return (f"(let v := check_C10 ({sc_}) {ob_} in mkv (v_strict v) (v_proj v) (v_mon v && {X}) (v_monk v && {X}), "
-                f"wf_histb ({sc_}))")
+        # the scenario and the observation are bound once: the terms are large, and the file is parsed by coqc
+        X = "still_acquires sc (pre_holds sc) (sc_hist sc) ob && mon_C10u sc ob"
+        return (f"(let sc := {sc_} in let ob := {ob_} in let v := check_C10 sc ob in "
+                f"(mkv (v_strict v) (v_proj v) (v_mon v && {X}) (v_monk v && {X}), wf_histb sc))")
     if pid == "C17":
         sc_, ob_ = s.coq(*r['adr']), common.obs_list(r)
-        X = f"nonacq_no_bad_release (sc_hist ({sc_})) {ob_}"
-        return (f"(let v := check_C17 ({sc_}) {ob_} in mkv (v_strict v) (v_proj v) (v_mon v && {X}) (v_monk v && {X}), "
-                f"wf_histb ({sc_}))")
+        X = "nonacq_no_bad_release (sc_hist sc) ob"
+        return (f"(let sc := {sc_} in let ob := {ob_} in let v := check_C17 sc ob in "
+                f"(mkv (v_strict v) (v_proj v) (v_mon v && {X}) (v_monk v && {X}), wf_histb sc))")
     if pid == "C04":
         sc_, ob_ = s.coq(*r['adr']), common.obs_list(r)
-        return (f"(let v := check_C04 ({sc_}) {ob_} in let x := no_bad_release {ob_} in "
-                f"mkv (v_strict v) (v_proj v) (v_mon v && x) (v_monk v && x), wf_histb ({sc_}) && wf4b ({sc_}))")
+        return (f"(let sc := {sc_} in let ob := {ob_} in let v := check_C04 sc ob in let x := no_bad_release ob in "
+                f"(mkv (v_strict v) (v_proj v) (v_mon v && x) (v_monk v && x), wf_histb sc && wf4b sc))")
     if pid in WHOLE_HISTORY:
         # also evaluate the decidable hypotheses of the whole-history theorem (Pf_Hist.v) on this scenario
-        hyp = f"wf_histb ({s.coq(*r['adr'])})" + (f" && wf4b ({s.coq(*r['adr'])})" if pid == "C04" else "")
-        return f"(check_{pid} ({s.coq(*r['adr'])}) {common.obs_list(r)}, {hyp})"
+        return f"(let sc := {s.coq(*r['adr'])} in (check_{pid} sc {common.obs_list(r)}, wf_histb sc))"
     return f"check_{pid} ({s.coq(*r['adr'])}) {common.obs_list(r)}"
 
 
